@@ -309,3 +309,229 @@ def generate(types, exp, emit_item):
         text += "impl %s {\n%s\n    ensures\n        %s\n%s\n}\n" % (T, sig2, "\n        ".join(ens), body)
         items.append((td, text, rewrites, ens))
     return common, items
+
+
+# --------------------------------------------------------------------------
+# recurse_fold
+# --------------------------------------------------------------------------
+
+def fold_methods(exp):
+    s = Src("<expanded>", exp)
+    mm = re.search(r"pub trait Fold\s*<E>\s*\{", s.m)
+    if not mm:
+        raise AnchorLost("expanded trait Fold<E> not found")
+    close = s.match_close(mm.end() - 1)
+    body = s.text[mm.end():close]
+    return [(fm.group(1), fm.group(2)) for fm in re.finditer(r"fn\s+(fold_\w+)\s*\(\s*&mut self,\s*node:\s*(\w+)\s*\)", body)]
+
+
+def expanded_recurse_fold(exp_src, tname):
+    for im in re.finditer(r"impl\s+" + re.escape(tname) + r"\s*\{", exp_src.m):
+        close = exp_src.match_close(im.end() - 1)
+        seg = exp_src.m[im.end():close]
+        fm = re.search(r"pub fn recurse_fold\b", seg)
+        if not fm:
+            continue
+        a = im.end() + fm.start()
+        bo = exp_src.m.find("{", a)
+        bc = exp_src.match_close(bo)
+        return exp_src.text[a:bo], exp_src.text[bo:bc + 1]
+    return None
+
+
+def fold_vec_loop(src_expr, src_spec, method, ty, extra_inv):
+    """`src.into_iter().map(|x| f.m(x)).collect::<Result<Vec<_>, E>>()?` as the loop it denotes (stops at the first Err)"""
+    return ("""{
+            let ghost verif_l0 = f.log();
+            let ghost verif_s = %(spec)s;
+            let mut verif_out: Vec<%(ty)s> = Vec::new();
+            for x in verif_it: %(src)s
+                invariant
+                    f.log() == fp_%(sn)s(verif_l0, verif_s, verif_out@, verif_it.index@ as int),
+                    verif_out@.len() == verif_it.index@, verif_it.index@ <= verif_s.len(),
+                    verif_s == %(src)s@, verif_it.history@ =~= verif_s.take(verif_it.index@ as int),
+%(extra)s
+            {
+                let ghost verif_o = verif_out@;
+                let ghost verif_n = verif_it.index@ as int;
+                match f.%(m)s(x) {
+                    Ok(verif_y) => {
+                        verif_out.push(verif_y);
+                        proof { assert(x == verif_s[verif_n]); lemma_fp_%(sn)s_ext(verif_l0, verif_s, verif_o, verif_out@, verif_n); }
+                    }
+                    Err(verif_e) => { return Err(verif_e); }
+                }
+            }
+            verif_out
+        }""" % {"src": src_expr, "spec": src_spec, "sn": snake(ty), "ty": ty, "m": method, "extra": extra_inv})
+
+
+FOLD_VEC_RX = r"\{\s*let folds:\s*Result<Vec<_>,\s*E>\s*=\s*%s\s*\.into_iter\(\)\s*\.map\(\|x\|\s*f\.(\w+)\(x\)\)\s*\.collect\(\);\s*%s\s*\}"
+
+
+def generate_fold(types, exp):
+    methods = fold_methods(exp)
+    m_by_type = {}
+    for mname, ty in methods:
+        m_by_type.setdefault(ty, mname)
+    node_types = []
+    for _, ty in methods:
+        if ty not in node_types:
+            node_types.append(ty)
+    out = []
+    out.append("// ---- the folder seen by the generated traversal: every fold_* method appends (node given, node returned if Ok) to a ghost log.")
+    out.append("// Method list and node types are those of the expanded `trait Fold<E>` (dsl/src/fold.rs, dispatch!/leaf! macros).")
+    out.append("pub enum VNode {")
+    for ty in node_types:
+        out.append("    %s(%s)," % (ty, ty))
+    out.append("}")
+    out.append("pub type FLog = Seq<(VNode, Option<VNode>)>;")
+    out.append("pub trait Fold<E> {")
+    out.append("    spec fn log(&self) -> FLog;")
+    for mname, ty in methods:
+        out.append("    fn %s(&mut self, node: %s) -> (r: Result<%s, E>)" % (mname, ty, ty))
+        out.append("        ensures final(self).log() == old(self).log().push((VNode::%s(node), match r { Ok(verif_n) => Some(VNode::%s(verif_n)), Err(_) => None }));" % (ty, ty))
+    out.append("}")
+    out.append("/// an error is returned only when the fold call made last failed")
+    out.append("pub open spec fn fold_failed(l: FLog) -> bool { l.len() > 0 && l.last().1 is None }")
+    vec_types = []
+    for td in types:
+        for c in td["children"]:
+            if c["cont"] == "Vec" and not c["ignored"] and c["ty"] not in vec_types:
+                vec_types.append(c["ty"])
+    for ty in vec_types:
+        sn = snake(ty)
+        out.append("/// the log after the first n elements of a vector were folded into the first n elements of `o`")
+        out.append("pub open spec fn fp_%s(l: FLog, s: Seq<%s>, o: Seq<%s>, n: int) -> FLog\n    decreases n\n{\n    if n <= 0 { l } else { fp_%s(l, s, o, n - 1).push((VNode::%s(s[n - 1]), Some(VNode::%s(o[n - 1])))) }\n}" % (sn, ty, ty, sn, ty, ty))
+        out.append("pub proof fn lemma_fp_%s_ext(l: FLog, s: Seq<%s>, o1: Seq<%s>, o2: Seq<%s>, n: int)\n    requires 0 <= n <= o1.len(), o1.len() <= o2.len(), forall|i: int| 0 <= i < n ==> o1[i] == o2[i],\n    ensures fp_%s(l, s, o1, n) == fp_%s(l, s, o2, n),\n    decreases n\n{ if n > 0 { lemma_fp_%s_ext(l, s, o1, o2, n - 1); } }" % (sn, ty, ty, ty, sn, sn, sn))
+    common = "\n".join(out) + "\n"
+    exp_src = Src("<expanded>", exp)
+    items = []
+    for td in types:
+        found = expanded_recurse_fold(exp_src, td["name"])
+        if not found:
+            continue
+        sig, body = found
+        T = td["name"]
+        sn = snake(T)
+        rewrites = []
+        spec = []
+        ens = []
+        if td["kind"] == "struct":
+            kids = [c for c in td["children"] if not c["ignored"]]
+            for c in kids:
+                if c["ty"] not in m_by_type:
+                    raise AnchorLost("%s.%s: no fold method for type %s" % (T, c["name"], c["ty"]))
+            spec.append("/// the log after the first j children of `s` were folded into the corresponding children of `res`")
+            spec.append("pub open spec fn folded_%s(s: %s, res: %s, l: FLog, j: int) -> FLog {" % (sn, T, T))
+            prev = "l"
+            for j, c in enumerate(kids, 1):
+                cur = "l%d" % j
+                f_ = c["name"]
+                if c["cont"] == "Simple":
+                    step = "%s.push((VNode::%s(s.%s), Some(VNode::%s(res.%s))))" % (prev, c["ty"], f_, c["ty"], f_)
+                elif c["cont"] == "Box":
+                    step = "%s.push((VNode::%s(*s.%s), Some(VNode::%s(*res.%s))))" % (prev, c["ty"], f_, c["ty"], f_)
+                elif c["cont"] == "Option":
+                    step = "match s.%s { Some(verif_c) => %s.push((VNode::%s(verif_c), Some(VNode::%s(res.%s->Some_0)))), None => %s }" % (f_, prev, c["ty"], c["ty"], f_, prev)
+                else:
+                    step = "fp_%s(%s, s.%s@, res.%s@, s.%s@.len() as int)" % (snake(c["ty"]), prev, f_, f_, f_)
+                spec.append("    let %s = if j >= %d { %s } else { %s };" % (cur, j, step, prev))
+                prev = cur
+            spec.append("    %s" % prev)
+            spec.append("}")
+            spec.append("/// the result has the shape of the node folded: optional children stay present / absent, vectors keep their length, what is not traversed is kept")
+            spec.append("pub open spec fn shape_%s(s: %s, res: %s) -> bool {" % (sn, T, T))
+            spec.append("    &&& true")
+            for c in td["children"]:
+                f_ = c["name"]
+                if c["ignored"]:
+                    spec.append("    &&& res.%s == s.%s" % (f_, f_))
+                elif c["cont"] == "Option":
+                    spec.append("    &&& (s.%s is Some <==> res.%s is Some)" % (f_, f_))
+                elif c["cont"] == "Vec":
+                    spec.append("    &&& s.%s@.len() == res.%s@.len()" % (f_, f_))
+            spec.append("}")
+            ens.append("r is Ok ==> shape_%s(self, r->Ok_0) && final(f).log() == folded_%s(self, r->Ok_0, old(f).log(), %d)," % (sn, sn, len(kids)))
+            ens.append("r is Err ==> fold_failed(final(f).log()),")
+            # the body: `{ Ok(T { f1: e1, ... }) }` -> let-bindings in field order, then the literal
+            inner = body.strip()[1:-1].strip()
+            lm = re.match(r"^Ok\(\s*" + re.escape(T) + r"\s*\{(.*)\}\s*\)$", inner, re.S)
+            if not lm:
+                raise AnchorLost("%s::recurse_fold: body is not `Ok(%s { .. })`" % (T, T))
+            fields = [p for p in split0(lm.group(1)) if p.strip()]
+            lets = []
+            names = []
+            j = 0
+            all_fields = [c["name"] for c in td["children"]]
+            for part in fields:
+                fm = re.match(r"^\s*(\w+)\s*:\s*(.*)$", part, re.S)
+                if not fm:
+                    raise AnchorLost("%s::recurse_fold: field initialiser not understood: %r" % (T, part[:60]))
+                fname, expr = fm.group(1), fm.group(2).strip()
+                names.append(fname)
+                cs = [c for c in td["children"] if c["name"] == fname]
+                if not cs:
+                    raise AnchorLost("%s::recurse_fold: field %s is not in the type definition" % (T, fname))
+                c = cs[0]
+                if not c["ignored"]:
+                    j += 1
+                if c["ignored"] or c["cont"] in ("Simple", "Box"):
+                    pass
+                elif c["cont"] == "Option":
+                    rx = r"^self\." + fname + r"\s*\.map\(\|x\|\s*f\.(\w+)\(x\)\)\s*\.transpose\(\)\?$"
+                    mo = re.match(rx, expr, re.S)
+                    if not mo:
+                        raise AnchorLost("%s::recurse_fold: Option shape of field %s not found in the expansion" % (T, fname))
+                    expr = "(match self.%s { None => None, Some(x) => Some(f.%s(x)?) })" % (fname, mo.group(1))
+                    rewrites.append({"old": "self.%s.map(|x| f.<m>(x)).transpose()?" % fname, "new": "the match it denotes", "note": "std-equivalent: Option::map + Option::transpose + ?"})
+                else:
+                    mo = re.match("^" + FOLD_VEC_RX % (r"self\." + fname, r"folds\?") + "$", expr, re.S)
+                    if not mo:
+                        raise AnchorLost("%s::recurse_fold: Vec shape of field %s not found in the expansion" % (T, fname))
+                    done = names[:-1]
+                    partial = "%s { %s }" % (T, ", ".join("%s: %s" % (n_, ("verif_f_" + n_) if n_ in done else "verif_self." + n_) for n_ in all_fields))
+                    lets.append("            let ghost verif_p%d = %s;" % (j, partial))
+                    inv = "                    verif_l0 == folded_%s(verif_self, verif_p%d, old(f).log(), %d)," % (sn, j, j - 1)
+                    expr = fold_vec_loop("self." + fname, "verif_self." + fname + "@", mo.group(1), c["ty"], inv)
+                    rewrites.append({"old": "{ let folds: Result<Vec<_>, E> = self.%s.into_iter().map(|x| f.<m>(x)).collect(); folds? }" % fname, "new": "the loop that stops at the first Err", "note": "std-equivalent: collect into Result<Vec<_>, E>"})
+                lets.append("            let verif_f_%s = %s;" % (fname, expr))
+            if sorted(names) != sorted(all_fields):
+                raise AnchorLost("%s::recurse_fold: the literal does not initialise exactly the fields of the type" % T)
+            rewrites.append({"old": "Ok(%s { f: e, .. })" % T, "new": "let verif_f_f = e; .. Ok(%s { f: verif_f_f, .. })" % T, "note": "std-equivalent: the fields of a struct literal are evaluated in the order written"})
+            body = "{\n            let ghost verif_self = self;\n" + "\n".join(lets) + "\n            Ok(%s { %s })\n        }" % (T, ", ".join("%s: verif_f_%s" % (n_, n_) for n_ in names))
+        else:
+            arms = []
+            for c in td["children"]:
+                vn = c["name"]
+                if c["cont"] == "Unit" or c["ignored"]:
+                    pat = "%s::%s" % (T, vn) if c["cont"] == "Unit" else "%s::%s(_)" % (T, vn)
+                    arms.append("            %s => r == Ok::<%s, E>(self) && final(f).log() == old(f).log()," % (pat, T))
+                    continue
+                if c["ty"] not in m_by_type:
+                    raise AnchorLost("%s::%s: no fold method for type %s" % (T, vn, c["ty"]))
+                if c["cont"] == "Simple":
+                    arms.append("            %s::%s(verif_n) => r is Ok ==> r->Ok_0 is %s && final(f).log() == old(f).log().push((VNode::%s(verif_n), Some(VNode::%s(r->Ok_0->%s_0))))," % (T, vn, vn, c["ty"], c["ty"], vn))
+                elif c["cont"] == "Box":
+                    arms.append("            %s::%s(verif_n) => r is Ok ==> r->Ok_0 is %s && final(f).log() == old(f).log().push((VNode::%s(*verif_n), Some(VNode::%s(*r->Ok_0->%s_0))))," % (T, vn, vn, c["ty"], c["ty"], vn))
+                elif c["cont"] == "Vec":
+                    arms.append("            %s::%s(verif_n) => r is Ok ==> r->Ok_0 is %s && r->Ok_0->%s_0@.len() == verif_n@.len() && final(f).log() == fp_%s(old(f).log(), verif_n@, r->Ok_0->%s_0@, verif_n@.len() as int)," % (T, vn, vn, vn, snake(c["ty"]), vn))
+                    rx = r"(" + re.escape(T) + r"::" + vn + r"\(node\)\s*=>\s*)\{\s*let folds:\s*Result<Vec<_>,\s*E>\s*=\s*node\s*\.into_iter\(\)\s*\.map\(\|x\|\s*f\.(\w+)\(x\)\)\s*\.collect\(\);\s*Ok\(" + re.escape(T) + r"::" + vn + r"\(folds\?\)\)\s*\}"
+
+                    def rep(mo, c=c, vn=vn):
+                        loop = fold_vec_loop("node", "verif_nodes", mo.group(2), c["ty"], "                    verif_l0 == old(f).log(),")
+                        return mo.group(1) + "{ let ghost verif_nodes = node@; let verif_v = " + loop + "; Ok(%s::%s(verif_v)) }" % (T, vn)
+                    body, n = re.subn(rx, rep, body)
+                    if n != 1:
+                        raise AnchorLost("%s::recurse_fold: Vec shape of variant %s not found in the expansion" % (T, vn))
+                    rewrites.append({"old": "{ let folds: Result<Vec<_>, E> = node.into_iter().map(|x| f.<m>(x)).collect(); Ok(%s::%s(folds?)) }" % (T, vn), "new": "the loop that stops at the first Err", "note": "std-equivalent: collect into Result<Vec<_>, E>"})
+                else:
+                    raise AnchorLost("%s::%s: Option variants are not supported by the macro" % (T, vn))
+            ens.append("match self {\n" + "\n".join(arms) + "\n        },")
+            ens.append("r is Err ==> fold_failed(final(f).log()),")
+        sig2 = re.sub(r"\s+", " ", sig).strip()
+        sig2 = re.sub(r"-> Result<(\w+), E>", r"-> (r: Result<\1, E>)", sig2)
+        text = "\n".join(spec) + ("\n" if spec else "")
+        text += "impl %s {\n%s\n    ensures\n        %s\n%s\n}\n" % (T, sig2, "\n        ".join(ens), body)
+        items.append((td, text, rewrites, ens))
+    return common, items
